@@ -344,6 +344,32 @@ theorem source_facts :
     GV.Gen.KesConsts.publicKeySize = 32 := by
   decide
 
+/-- Regenerated era switches: `ledger.ExtractKesFields` returns (signature, hot key, certificate
+    KES PERIOD) for every header type — the TPraos family from the flat fields, the Praos family
+    from the nested certificate — and `ledger.VerifyBlock` takes the leader VRF of every type from
+    the same place.  The model is era-independent because of exactly this; a slip in one case of
+    the switch (e.g. the issue counter instead of the period for one era) breaks this obligation. -/
+theorem era_switch_facts :
+    GV.Gen.HeaderFacts.extractKesFields =
+      [("*shelley.ShelleyBlockHeader", "return h.Signature, h.Body.OpCertHotVkey, uint64(h.Body.OpCertKesPeriod), nil"),
+       ("*allegra.AllegraBlockHeader", "return h.Signature, h.Body.OpCertHotVkey, uint64(h.Body.OpCertKesPeriod), nil"),
+       ("*mary.MaryBlockHeader", "return h.Signature, h.Body.OpCertHotVkey, uint64(h.Body.OpCertKesPeriod), nil"),
+       ("*alonzo.AlonzoBlockHeader", "return h.Signature, h.Body.OpCertHotVkey, uint64(h.Body.OpCertKesPeriod), nil"),
+       ("*babbage.BabbageBlockHeader", "return h.Signature, h.Body.OpCert.HotVkey, uint64(h.Body.OpCert.KesPeriod), nil"),
+       ("*conway.ConwayBlockHeader", "return h.Signature, h.Body.OpCert.HotVkey, uint64(h.Body.OpCert.KesPeriod), nil"),
+       ("*dijkstra.DijkstraBlockHeader", "return h.Signature, h.Body.OpCert.HotVkey, uint64(h.Body.OpCert.KesPeriod), nil"),
+       ("default", "...")] ∧
+    GV.Gen.HeaderFacts.verifyBlockVrfSwitch =
+      [("*shelley.ShelleyBlockHeader", "vrfResult = h.Body.LeaderVrf; vrfKey = h.Body.VrfKey; isTPraos = true"),
+       ("*allegra.AllegraBlockHeader", "vrfResult = h.Body.LeaderVrf; vrfKey = h.Body.VrfKey; isTPraos = true"),
+       ("*mary.MaryBlockHeader", "vrfResult = h.Body.LeaderVrf; vrfKey = h.Body.VrfKey; isTPraos = true"),
+       ("*alonzo.AlonzoBlockHeader", "vrfResult = h.Body.LeaderVrf; vrfKey = h.Body.VrfKey; isTPraos = true"),
+       ("*babbage.BabbageBlockHeader", "vrfResult = h.Body.VrfResult; vrfKey = h.Body.VrfKey"),
+       ("*conway.ConwayBlockHeader", "vrfResult = h.Body.VrfResult; vrfKey = h.Body.VrfKey"),
+       ("*dijkstra.DijkstraBlockHeader", "vrfResult = h.Body.VrfResult; vrfKey = h.Body.VrfKey"),
+       ("default", "...")] := by
+  decide
+
 /-! ### non-vacuity on the symbolic instance -/
 open GV.Model.HeaderSym
 
